@@ -201,7 +201,7 @@ CASES = {"trace": case_trace, "exh": case_exh, "threaded": case_threaded}
 
 def generate(ctx):
     rng = ctx.rng
-    for _ in range(ctx.n(1000, 8000)):
+    for _ in range(ctx.n(1500, 8000)):
         yield "trace", U.gen_trace_input(rng, max_n=rng.choice([4, 7, 10, 14, 18]), fail_p=0.1)
     for n in range(1, 6 if ctx.thorough() else 5):
         dags = list(U.all_dags(n))
